@@ -4,6 +4,10 @@ import (
 	"encoding/json"
 	"fmt"
 	"os"
+	"os/exec"
+	"path/filepath"
+
+	"verif/harness/core"
 )
 
 // loadStatementCounts reads the per-family statement counts written by the driver from the -cover
@@ -21,6 +25,55 @@ func loadStatementCounts() map[string][]uint64 {
 	_ = json.Unmarshal(data, &out)
 	return out
 }
+
+// Check20Stmts is the statement-counter oracle for one family; it runs the -cover probe
+// ($VERIF_C20_PROBE, built by the driver) in a subprocess. Without a probe the case is vacuous.
+func Check20Stmts(f Family20, r *core.Rec) {
+	probe := os.Getenv("VERIF_C20_PROBE")
+	if probe == "" {
+		r.Vacuous()
+		return
+	}
+	dir, err := os.MkdirTemp(os.Getenv("VERIF_WORK"), "c20replay")
+	if err != nil {
+		r.Vacuous()
+		return
+	}
+	defer os.RemoveAll(dir)
+	fam := filepath.Join(dir, "family.json")
+	data, _ := json.Marshal(f)
+	_ = os.WriteFile(fam, data, 0o644)
+	cmd := exec.Command(probe, "family", fam, dir)
+	cmd.Env = append(os.Environ(), "GOCOVERDIR="+dir)
+	out, err := cmd.Output()
+	if err != nil {
+		r.Vacuous()
+		return
+	}
+	var counts []uint64
+	if json.Unmarshal(out, &counts) != nil || len(counts) < 2 {
+		r.Vacuous()
+		return
+	}
+	rep := Report20{Family: f, Stmts: counts, Sizes: f.Sizes}
+	if len(rep.Sizes) == 0 {
+		rep.Sizes = []int{1000, 4000, 16000}
+	}
+	for i := 1; i < len(counts); i++ {
+		rep.ExpStmts = append(rep.ExpStmts, exponent(float64(counts[i-1]), float64(counts[i]), float64(rep.Sizes[i])/float64(rep.Sizes[i-1])))
+	}
+	r.NT()
+	if msg := verdict20(rep); msg != "" {
+		r.Failf("%s", msg)
+	}
+}
+
+var P20s = core.Register(core.Prop[Family20]{
+	ID:    "C20.stmts",
+	Rule:  "the fixed families again, measured with the statement counter: statements executed inside the library (coverage counters of a -cover build of cmd/c20probe, count x statements summed over all blocks) at n = 1000, 4000, 16000; same exponent rule",
+	Gen:   Gen20,
+	Check: Check20Stmts,
+})
 
 func summarise20(reps []Report20) []map[string]interface{} {
 	var out []map[string]interface{}
